@@ -34,9 +34,9 @@ class KademliaDatagramBase:
         self.packet_type = packet_type
         if self.expected_packet_type != packet_type:
             raise ValueError(f"invalid packet type: {packet_type}, expected {self.expected_packet_type}")
-        if len(rpc_id) != constants.RPC_ID_LENGTH:
+        if not isinstance(rpc_id, bytes) or len(rpc_id) != constants.RPC_ID_LENGTH:
             raise ValueError(f"invalid rpc node_id: {len(rpc_id)} bytes (expected 20)")
-        if not len(node_id) == constants.HASH_LENGTH:
+        if not isinstance(node_id, bytes) or not len(node_id) == constants.HASH_LENGTH:
             raise ValueError(f"invalid node node_id: {len(node_id)} bytes (expected 48)")
         self.rpc_id = rpc_id
         self.node_id = node_id
